@@ -133,9 +133,17 @@ def parseLoop (gFirst : Bytes → Nat) (fmt : Bytes) : Nat → List Bytes → Po
                   parseLoop gFirst fmt fuel (charsOf (fmt.drop g)) .alignment { o with fill := some (fmt.take g) }
                 else .error (.unexpectedToken next)
 
-/-- `StringFormatOptions::parse(format_string)` -/
-def parse (gFirst : Bytes → Nat) (fmt : Bytes) : Except PErr Opts :=
-  parseLoop gFirst fmt (fmt.length + 1) (charsOf fmt) .start {}
+/-- `StringFormatOptions::parse(format_string)`.
+`clusterFirst = true` describes a tree with requests/C15-fix-6.diff applied: before the loop, a first
+grapheme cluster that is directly followed by an alignment character is taken as the fill (what the lexer
+already does), so a fill cluster whose first character is a digit / representation character works. -/
+def parse (gFirst : Bytes → Nat) (fmt : Bytes) (clusterFirst : Bool := false) : Except PErr Opts :=
+  let g := gFirst fmt
+  let rest := fmt.drop g
+  match (if clusterFirst ∧ fmt ≠ [] ∧ rest ≠ [] ∧ gFirst rest = 1 then alignOf? (rest.take 1) else none) with
+  | some al =>
+    parseLoop gFirst fmt (fmt.length + 1) (charsOf (rest.drop 1)) .minWidth { fill := some (fmt.take g), align := al }
+  | none => parseLoop gFirst fmt (fmt.length + 1) (charsOf fmt) .start {}
 
 /-! ### text form of an options value -/
 
@@ -308,8 +316,9 @@ def applyFmt (gFirst : Bytes → Nat) (v : FVal) (o : Option Opts) (exactCenter 
   pad gFirst (isNumber v) (render gFirst v o) o exactCenter
 
 /-- `'{v:fmt}'`: parse the options, then apply them -/
-def format (gFirst : Bytes → Nat) (fmt : Bytes) (v : FVal) (exactCenter : Bool := false) : Except PErr Bytes :=
-  match parse gFirst fmt with
+def format (gFirst : Bytes → Nat) (fmt : Bytes) (v : FVal) (exactCenter : Bool := false)
+    (clusterFirst : Bool := false) : Except PErr Bytes :=
+  match parse gFirst fmt clusterFirst with
   | .error e => .error e
   | .ok o => .ok (applyFmt gFirst v (some o) exactCenter)
 
